@@ -7,6 +7,16 @@ HERE = os.path.dirname(os.path.dirname(os.path.abspath(__file__)))
 BASELINE = "cd /repo && /venv/bin/python -m pytest -ra -q -p no:cacheprovider --timeout=900 --continue-on-collection-errors"
 
 CHECKS = {
+    'C17': dict(
+        text='The property quantifies over a pinned, finite corpus: the thorough check enumerates it completely on the real code (72 files x 11 '
+             'size options x 2 bases), the quick check a seeded slice. Lean theorems cover the decision logic meant to guarantee it: a '
+             'binding is renamed only if the cost model accepts the candidate or its own name is no longer free, a literal is hoisted '
+             'only if the cost model accepts it, the cost model is the stated inequality on total mention length, folding never '
+             'lengthens, statement-dropping never adds statements. Tie: the assigner/fold/transform correspondences of C03, C07, C05.',
+        note='PARTIAL by nature of the property: the relation between the cost model and the printed length (layout slack when an '
+             'inserted assignment lands before a compound statement, DESIGN F13) is evaluated on the corpus, not proved.',
+        technique='exhaustive evaluation of the pinned corpus + Lean 4 proofs about the cost-model decisions',
+        ref='§6 C17'),
     'C08': dict(
         text='Lean (decide on tables regenerated from the source and the running interpreter): the inventory of raise statements equals the '
              'classified one (API validation, self-check, CLI, internal guards, caught, unknown node, abstract stub, f-string search), '
